@@ -101,14 +101,7 @@ func c14Order(r *Report) {
 		r.Unres("begin-order", d, "orderBeginBlockers not found")
 		return
 	}
-	n := parseLit(p, nil)
-	_ = n
 	var names []string
-	if len(fd.Body.List) == 1 {
-		if rs, ok := fd.Body.List[0].(interface{ End() }); ok {
-			_ = rs
-		}
-	}
 	lit := firstCompositeLit(fd)
 	if lit == nil {
 		r.Unres("begin-order", d, "no literal")
